@@ -262,7 +262,23 @@ namespace sim
               {
                 const size_t wi = rng.below(ws.size());
                 Op q;
-                fill_query(q, ws[wi], slots[wi], rng, true, true);
+                const double sel = rng.real();
+                if (sel < 0.05)
+                  {
+                    q.op = "size";
+                    q.props = random_props(ws[wi], rng, 8, true);
+                  }
+                else if (sel < 0.1 && !ws[wi].feature_names.empty())
+                  {
+                    q.op = "dist";
+                    const ProbePoint pp = probe_point(ws[wi], rng);
+                    for (int k = 0; k < 3; ++k)
+                      q.p[k] = pp.p3[k];
+                    q.d = pp.depth;
+                    q.name = ws[wi].feature_names[rng.below(ws[wi].feature_names.size())];
+                  }
+                else
+                  fill_query(q, ws[wi], slots[wi], rng, true, true);
                 q.h = static_cast<int>(wi);
                 ops.push_back(q);
               }
@@ -306,6 +322,13 @@ namespace sim
     seq.strategy = S_SEQ;
     s.ops.push_back(tool(1, seq));
     s.ops.push_back(tool(N, random_sched(srng, std::min(N, static_cast<int>(g.nodes())))));
+    // "this rare condition was reached" probes
+    if (static_cast<size_t>(N) > g.nodes())
+      s.ops.back().note = "more_threads_than_nodes";
+    else if (g.nodes() % static_cast<size_t>(N) != 0)
+      s.ops.back().note = "nodes_not_divisible_by_threads";
+    else
+      s.ops.back().note = "nodes_divisible_by_threads";
     s.probes.push_back("nodes=" + std::to_string(g.nodes()) + " N=" + std::to_string(N));
     return true;
   }
